@@ -263,7 +263,7 @@ XCORPUS = [
     "(pow (add (mul (i 2) (f1 sin x)) (mul (i 3) (f1 sin x))) (i 2))", "(pow (add x (i 18446744073709551616)) (i 3))", "(pow (add (q 1 2) (q 1 3)) (i 2))",
     "(mul (add x (i 1)) (add x (i 1)))", "(mul (mul (add x (i 1)) (add x (i 2))) (add x (i 3)))", "(pow (add (mul x (add y (i 1))) z) (i 2))",
     "(pow (add (mul (i 2) (mul x (pow y (i -1)))) z) (i 3))", "(pow (add (mul (q 2 3) (pow x (q 1 2))) z) (i 3))", "(pow (add (pow x (q 1 2)) (i 1)) (i 4))",
-    # mul() of two non-integer powers of a sum returns the sum itself (repaired: fix d29d69e)
+    # mul() of two non-integer powers of a sum returns the sum itself (repaired: fix d80a73b)
     "(mul (sqrt (add x y)) (add (sqrt (add x y)) (i 1)))", "(mul (add (sqrt (add x y)) z) (add (sqrt (add x y)) (i 1)))",
     "(mul (pow (add x y) z) (add (pow (add x y) (sub (i 1) z)) (i 1)))", "(pow (add (sqrt (add x y)) (i 1)) (i 2))",
     "(mul (pow (add x y) (q 1 3)) (add (pow (add x y) (q 2 3)) x))", "(mul (add (pow (add x y) (q 1 3)) (i 2)) (add (pow (add x y) (q 2 3)) x))",
